@@ -127,6 +127,20 @@ class Check(Property):
             self.bump("kind.temperature")
             out.append({"kind": "temperature", "f": f, "a": a, "b": b,
                         "ops": [{"op": "q", "f": f, "a": a, "b": b, "auto": False}]})
+        # quantities of different dimensionality that an ACTIVE context can convert into each other: adding, subtracting and
+        # ordering them is still a DimensionalityError (the model has no contexts: same expected answer)
+        CTX = [("sp", "nanometer", "terahertz"), ("sp", "terahertz", "electron_volt"), ("sp", "meter", "hertz"),
+               ("boltzmann", "kelvin", "joule"), ("energy", "joule", "gram"), ("textile", "tex", "number_meter")]
+        for _ in range(60 if self.tier == "quick" else 600):
+            cx, ua, ub = rng.choice(CTX)
+            if rng.random() < 0.5:
+                ua, ub = ub, ua
+            f = rng.choice(["add", "sub", "lt", "ge", "le", "gt"])
+            a = {"m": frac_s(Fraction(rng.randint(1, 9), rng.choice([1, 2]))), "u": [[ua, "1/1"]]}
+            b = {"m": frac_s(Fraction(rng.randint(1, 9))), "u": [[ub, "1/1"]]}
+            self.bump("kind.active-context")
+            out.append({"kind": "context", "ctx": cx, "inplace": rng.random() < 0.3 and f in ("add", "sub"), "f": f, "a": a, "b": b,
+                        "ops": [{"op": "q", "f": f, "a": a, "b": b, "auto": False}]})
         return out
 
     # ------------------------------------------------------------------ helpers on the real code
@@ -162,6 +176,13 @@ class Check(Property):
 
     def impl(self, c):
         u = regs.ureg("fraction")
+        if c.get("kind") == "context":
+            def run():
+                with u.context(c["ctx"]):
+                    if c["inplace"]:
+                        return res_j(IOP[c["f"]](self.mkq(u, c["a"]), self.mkq(u, c["b"])))
+                    return res_j(self.apply(u, c))
+            return [capture(run)]
         return [capture(lambda: res_j(self.apply(u, c)))]
 
     def same(self, c, io, mo):
@@ -223,6 +244,12 @@ class Check(Property):
     def oracle(self, c):
         import numpy as np
         u = regs.ureg("fraction")
+        if c.get("kind") == "context":
+            r = self.impl(c)[0]
+            if r.get("err") != "DimensionalityError":
+                return [f"C03 {c['f']}{' (in place)' if c['inplace'] else ''} a={c['a']} b={c['b']} inside the active context {c['ctx']!r}: "
+                        f"quantities of different dimensionality give {r} instead of DimensionalityError"]
+            return []
         rng = self.rng
         v = []
         f = c["f"]
